@@ -417,6 +417,7 @@ fn cmd_run(a: &Args) -> i32 {
         let (res, coord) = match &space {
             Some(sp) => {
                 let (ops, desc) = sp.ops(this);
+                let ops = if a.flag("drop-variants") { gen::with_drop_variants(ops, mix(seed, this)) } else { ops };
                 let mut it = ops.into_iter();
                 let mut g = |_: &World| it.next();
                 let r = run::run_history(&cfg, &mut g, 10_000);
@@ -609,6 +610,7 @@ fn cmd_run(a: &Args) -> i32 {
             }
             None if gen == "family" => {
                 let (ops, desc) = gen::family_ops(this, seed, class, a.u64("max-n", 12) as usize);
+                let ops = if a.flag("drop-variants") { gen::with_drop_variants(ops, mix(seed, this)) } else { ops };
                 let mut it = ops.into_iter();
                 let mut g = |_: &World| it.next();
                 let r = run::run_history(&cfg, &mut g, 100_000);
